@@ -18,8 +18,9 @@ from ..driver import Scratch, Server, server_on
 LEVEL = "model_checking"
 
 INIT_DOCS = ["", "a", "ab\ncd", "ab\ncd\n", "ab\r\ncd\r\n", "a\rb", "abc\n\ndef\n"]
-TEXTS_FULL = ["", "x", "\n", "\r\n", "\r", "x\n", "\ny", "x\ny", "x\r\ny\r\n", "p\n\nq"]
-TEXTS_REDUCED = ["", "x", "\n", "x\n", "\ny", "\r\n"]
+# (one text may mix the three kinds of line break)
+TEXTS_FULL = ["", "x", "\n", "\r\n", "\r", "x\n", "\ny", "x\ny", "x\r\ny\r\n", "p\n\nq", "a\r\nb\nc", "a\nb\rc\r\n"]
+TEXTS_REDUCED = ["", "x", "\n", "x\n", "\ny", "\r\n", "a\r\nb\nc"]
 
 
 def _mk_change(rng, text):
